@@ -1715,6 +1715,14 @@ impl VirtualFileSystem for Memfs {
             let src_entry = if let Some(mut dst_entry) = guard.remove_entry(&src_path) {
                 let src_entry = dst_entry.clone();
                 dst_entry.path.clone_from(&dst_path);
+
+                // Links are relative like the ones Stdfs creates thus a moved link points to
+                // whatever its relative target resolves to from its new location
+                if dst_entry.link && !dst_entry.rel.as_os_str().is_empty() && !dst_entry.rel.is_absolute() {
+                    if let Ok(alt) = self._abs(&guard, dst_path.dir()?.mash(&dst_entry.rel)) {
+                        dst_entry.alt = alt;
+                    }
+                }
                 guard.insert_entry(dst_path.clone(), dst_entry);
                 src_entry
             } else {
